@@ -394,20 +394,17 @@ theorem isDir_false_of_kind {t : T} {a : FsPath} {n : Node} (hg : get t a = some
     isDir t a = false := by
   unfold isDir; simp [hg, hk]
 
-/-- `remove`: covered except for a link to a directory (finding S1) -/
-theorem sim_remove (h : Ctx env t) (p : Str)
-    (hdom : ∀ a, resolve env t p = .ok a → isLinkToDir t a = false) :
+theorem sim_remove (h : Ctx env t) (p : Str) :
     Sim (Stdfs.step env t (.remove p))
       (withPath env t p fun a => liftR (fun _ => .unit) (TreeFs.remove t a)) := by
   simp only [Stdfs.step, Stdfs.remove]
   refine sim_withPath h.cwd p _ _ _ ?_
-  intro a ha
-  have hl := hdom a ha
+  intro a _
   unfold TreeFs.remove
   ssimp
   cases hg : get t a with
   | none =>
-    obtain ⟨e, he⟩ := stat_missing hg
+    obtain ⟨e, he⟩ := lstat_of_none hg
     simp only [he]
     by_cases hne : a = []
     · simp only [hne, if_true, liftR]; exact sim_unspec _ _
@@ -420,39 +417,19 @@ theorem sim_remove (h : Ctx env t) (p : Str)
         · simp only [hm, if_false, liftR]; exact sim_unspec _ _
   | some n =>
     have hw := walkErr_of_get h.wf hg
-    cases hk : n.kind with
-    | dir =>
-      simp only [stat_nonlink h.wf hg (by simp [hk, isLinkKind]), hk, reduceCtorEq, if_false, if_true, rmdir]
+    simp only [lstat_of_get h.wf hg]
+    by_cases hk : n.kind = .dir
+    · simp only [hk, ne_eq, not_true_eq_false, if_false, rmdir]
       by_cases hne : a = []
       · simp only [hne, if_true, liftR]; exact sim_err _ _ (TEquiv.refl _)
-      · simp only [hne, if_false, hw, hg, hk, ne_eq, not_true_eq_false]
+      · simp only [hne, if_false, hw, hg, hk, not_true_eq_false]
         cases hb : (below t a).isEmpty with
         | true => simp only [Bool.not_true, Bool.false_eq_true, if_false, if_true, liftR]; exact sim_same (by simp)
         | false => simp only [Bool.not_false, if_true, Bool.false_eq_true, if_false, liftR]; exact sim_err _ _ (TEquiv.refl _)
-    | file =>
-      have hne : a ≠ [] := ne_nil_of_not_dir h hg (by simp [hk])
-      have hb : below t a = [] := below_eq_nil_of_not_dir h.wf (isDir_false_of_kind hg (by simp [hk]))
-      simp only [stat_nonlink h.wf hg (by simp [hk, isLinkKind]), hk, if_true, hb, List.isEmpty_nil, liftR]
-      ssimp [unlink, hne, hw, hg, hk, reduceCtorEq]
-      exact sim_same (by simp)
-    | link b =>
-      have hne : a ≠ [] := ne_nil_of_not_dir h hg (by simp [hk])
-      have hb : below t a = [] := below_eq_nil_of_not_dir h.wf (isDir_false_of_kind hg (by simp [hk]))
-      have hbf : b = false := by
-        unfold isLinkToDir at hl; rw [hg] at hl
-        cases b with
-        | false => rfl
-        | true => simp [hk] at hl
-      subst hbf
-      obtain ⟨tg, m, _, _, h3, h4, hs⟩ := stat_link h.wf h.links hg hk
-      have hmd : ¬ m.kind = .dir := by simpa using h4
-      have hmf : m.kind = .file := by
-        cases hmk : m.kind with
-        | dir => exact absurd hmk hmd
-        | file => rfl
-        | link c => simp [hmk, isLinkKind] at h3
-      simp only [hs, hmf, if_true, hb, List.isEmpty_nil, liftR]
-      ssimp [unlink, hne, hw, hg, hk, reduceCtorEq]
+    · have hne : a ≠ [] := ne_nil_of_not_dir h hg hk
+      have hb : below t a = [] := below_eq_nil_of_not_dir h.wf (isDir_false_of_kind hg hk)
+      simp only [hk, ne_eq, not_false_eq_true, if_true, hne, if_false, hb, List.isEmpty_nil, liftR]
+      ssimp [unlink, hne, hw, hg, hk]
       exact sim_same (by simp)
 
 /-! ### symlink -/
@@ -621,35 +598,31 @@ theorem tequiv_filter_nonDir {t : T} (h : WfFacts t) {a : FsPath} (hd : isDir t 
       · simp only [hp, if_true]; exact get_below_none h hd h1
     · simp only [hp]; rfl
 
-/-- `remove_all`: covered except for a regular file (finding S4: `fs::remove_dir_all` refuses it) -/
-theorem sim_removeAll (h : Ctx env t) (p : Str)
-    (hdom : ∀ a, resolve env t p = .ok a → isFile t a = false) :
+theorem sim_removeAll (h : Ctx env t) (p : Str) :
     Sim (Stdfs.step env t (.removeAll p))
       (withPath env t p fun a => liftR (fun _ => .unit) (TreeFs.removeAll t a)) := by
   simp only [Stdfs.step, Stdfs.removeAll]
   refine sim_withPath h.cwd p _ _ _ ?_
-  intro a ha
-  have hnf := hdom a ha
+  intro a _
   unfold TreeFs.removeAll
   by_cases hne : a = []
   · simp only [hne, if_true, liftR]; exact sim_unspec _ _
-  · ssimp [hne, exists_eq_isSome h.wf h.links, liftR]
+  · ssimp [hne, liftR]
     cases hg : get t a with
     | none =>
-      ssimp [Option.isSome_none]
+      obtain ⟨e, he⟩ := lstat_of_none hg
+      ssimp [he]
       refine ⟨by simp, fun _ => ?_⟩
       exact tequiv_filter_nonDir h.wf (by unfold isDir; rw [hg]) t rfl
         (fun q => by by_cases hq : q = a <;> simp [hq, hg])
     | some n =>
-      ssimp [Option.isSome_some, removeDirAll, lstat_of_get h.wf hg]
-      cases hk : n.kind with
-      | dir => simp only [hne, if_false]; exact sim_same (by simp)
-      | file => unfold isFile at hnf; simp [hg, hk] at hnf
-      | link b =>
-        have hw := walkErr_of_get h.wf hg
-        simp only [unlink, hne, if_false, hw, hg, hk, reduceCtorEq]
+      by_cases hk : n.kind = .dir
+      · ssimp [lstat_of_get h.wf hg, hk, removeDirAll, hne]
+        exact sim_same (by simp)
+      · have hw := walkErr_of_get h.wf hg
+        ssimp [lstat_of_get h.wf hg, hk, unlink, hne, hw, hg]
         refine ⟨by simp, fun _ => ?_⟩
-        exact tequiv_filter_nonDir h.wf (isDir_false_of_kind hg (by simp [hk])) (del t a) rfl
+        exact tequiv_filter_nonDir h.wf (isDir_false_of_kind hg hk) (del t a) rfl
           (fun q => get_del h.wf a q)
 
 /-! ### write_lines / append_lines / append_line -/
